@@ -222,7 +222,10 @@ def run(chk, repo):
            f"the cursor staged for the out-nodes receives `{unparse(e) if e is not None else 'the default True'}`, which is not known to be False after the "
            "real fusion breakpoint was found in this node: downstream (accepter) nodes keep opening ORFs, so peptides from start codons behind the "
            "breakpoint of a fusion without known ORF are reported", key=uq + '::close-start-search', fn=u.qual)
-
+    from rules.C01 import split_node_flags
+    chk.rule('C02.i', '(shared with C01.f) split_node: the truncated / pop-collapse flags describe the END of a node and move to the right half', 2)
+    chk.clauses.append('C02.i when a node is split the right half inherits `truncated`: the open-ended tail of an mRNA_end_NF transcript is never reported as a peptide')
+    split_node_flags(chk, repo, 'C02.i')
 
 def retry_effects(chk, repo, rid):
     """R-EFFECT on the timeout retry (shared with C06.f)."""
